@@ -173,6 +173,8 @@ theorem skeleton_revision : Xp.Gen.c08SkelRevision = calls skelRevision := by de
 theorem skeleton_remove_self : Xp.Gen.c08SkelRemoveSelf = calls skelRemoveSelf := by decide
 theorem skeleton_resolve : Xp.Gen.c08SkelResolve = calls skelResolve := by decide
 theorem skeleton_usage : Xp.Gen.c08SkelUsage = calls skelUsage := by decide
+theorem skeleton_sel_resolve : Xp.Gen.c08SkelSelResolve = calls skelSelResolve := by decide
+theorem skeleton_sel_resolve_one : Xp.Gen.c08SkelSelResolveOne = calls skelSelResolveOne := by decide
 theorem skeleton_engine_stop : Xp.Gen.c08SkelEngineStop = calls skelEngineStop := by decide
 theorem skeleton_engine_start : Xp.Gen.c08SkelEngineStart = calls skelEngineStart := by decide
 
@@ -203,7 +205,10 @@ theorem skeleton_revision_paths :
 
 theorem skeleton_usage_paths :
     pathTags (usageRec "n") usagePaths 0 = onPath 0 skelUsage ∧
-    pathTags (usageRec "n") usagePaths 1 = onPath 1 skelUsage := by decide
+    pathTags (usageRec "n") usagePaths 1 = onPath 1 skelUsage ∧
+    pathTags (usageRec "n") usagePaths 2 = onPath 2 skelUsage ∧
+    pathTags (usageRec "n") usagePaths 2 = ["get"] ++ onPath 2 skelSelResolve ∧
+    onPath 2 skelSelResolve = onPath 2 skelSelResolveOne := by decide
 
 /-- the designated paths are real: each one ends in a teardown write or a wait -/
 example : pathTags (definedRec "n") definedPaths 0 = ["get", "setStatus", "get", "deleteAll", "list", "stop", "delete"] ∧
